@@ -12,6 +12,7 @@ CONSTANTS
   EUSuffixed = {0, 1, 63, 64, 127, 128, 2047, 2048, 4095}
   GenClasses = {"scalar", "array", "bitfield", "nested", "anon", "alignas", "flex"}
   GenPacked = TRUE
+  McSel = "full"
   CheckSim = FALSE
 INVARIANTS Inv_EnumRefine
 CHECK_DEADLOCK FALSE
